@@ -15,14 +15,14 @@ CLAIM = {
             "per byte for XTGETTCAP), DEC private marker, OSC/DCS framing with ST, alt-screen keyboard-level bracketing under "
             "caps.kitty_keyboard, empty output for Image/ImageErase; variant field types are those the holes assume; every path is a "
             "concatenation of complete control sequences with no non-I/O exit inside one; DecMode discriminants equal xterm's mode numbers; (b) every overflow/negation/bounds/unwrap obligation reachable from TTYEncoder::encode is discharged (abstract interpretation, "
-            "CHUNKS-INV and FINITE-COLOR lemmas). "
+            "CHUNKS-INV, FINITE-COLOR and NEAREST-RANGE lemmas - the last one by giving `nearest` its value on every search outcome and tie direction per table length; code that only runs inside a debug_assert! is a developer-stated invariant, not an obligation). "
             "Not decided: the SGR parameter table (C06; only CSI..m framing and ';' joining), colour reduction (C20), absence of panics on "
             "extreme values (clause (b), hook `obligations` left for the abstract interpreter), control bytes in the ground-state payloads of "
             "Char/Raw (values inside OSC/DCS strings are classified: numeric, hex, trusted Display or control-filtered characters), "
             "what a real terminal does beyond the reference templates.",
-    "technique": "output-template extraction from the syntax tree (template language per path), comparison with hand-written reference "
+    "technique": "output-template extraction from the syntax tree (template language per path, helpers inlined, equivalent idioms normalised), comparison with hand-written reference "
                  "templates over all branch valuations, ECMA-48 framing automaton on templates, enum discriminant table; abstract interpretation "
-                 "of MIR for the panic obligations",
+                 "of MIR for the panic obligations, structural lemmas on canonical terms, denotational evaluation of `nearest`",
     "design_ref": "DESIGN.md §5 C05 (a); §4 output templates, reference tables",
 }
 
@@ -32,6 +32,7 @@ ENUM = "TerminalCommand"
 ENUM_PATH = "terminal::TerminalCommand"
 N_VARIANTS = 27      # counted by hand in src/terminal.rs on the pinned tree
 N_DECMODES = 9
+STR_TYPES = ("std::string::String", "&str", "str", "&'static str", "std::borrow::Cow<'static, str>")
 
 
 def load_refs():
@@ -41,7 +42,7 @@ def load_refs():
         if r["variant"] in rows:
             raise ValueError("duplicate reference row " + r["variant"])
         alts = r["any_of"] if "any_of" in r else [r["template"]]
-        r["_alts"] = [T.ref_template(a) for a in alts]
+        r["_alts"] = [T.variant_eq_as_match(T.ref_template(a)) for a in alts]
         rows[r["variant"]] = r
     return d, rows
 
@@ -78,7 +79,7 @@ def field_type(prog, refs, variant, path):
     return ty
 
 
-def make_resolver(src, impl_self):
+def make_resolver(src, impl_self, file=None):
     st = src.struct(impl_self)
     ftypes = {}
     if st:
@@ -91,6 +92,16 @@ def make_resolver(src, impl_self):
         m = re.match(r"^self\.(\w+)$", call.recv or "")
         if m and m.group(1) in ftypes:
             return src.fn(call.name, impl_self=re.escape(ftypes[m.group(1)]))
+        if call.recv is None:
+            # helper written as a free function of the crate, or as an associated function `Self::f(..)` / `Type::f(..)`
+            segs = call.name.split("::")
+            if len(segs) == 1 or segs[-2] in ("self", "super", "crate") or segs[-2].islower():
+                cands = [(f, it) for (f, s_, tr, it, t) in src.fns if it["name"] == segs[-1] and s_ is None and not t]
+                same = [c for c in cands if file is None or c[0] == file]
+                cands = same or cands
+                return cands[0] if len(cands) == 1 else None
+            owner = impl_self if segs[-2] == "Self" else segs[-2]
+            return src.fn(segs[-1], impl_self=re.escape(owner))
         return None
     return resolver
 
@@ -149,7 +160,7 @@ def _sanitising_filter(node):
     def f(n, parents):
         if n.get("k") == "mcall" and n["m"] == "filter" and len(n["args"]) == 1 and n["args"][0].get("k") == "closure":
             body = n["args"][0]["body"]
-            if re.match(r"^!\w+\.is_control\(\)$", T.canon(body)):
+            if re.match(r"^!(\w+\.is_control\(\)|char::is_control\(\w+\))$", T.canon(body)):
                 hit[0] = True
     from ..src import walk
     walk(node, f)
@@ -209,8 +220,34 @@ def payload_class(prog, refdoc, variant, atom, loops):
     return "unknown", expr
 
 
+_CTRL_TEST = r"(?:char::is_control|\|&?(?P<c>\w+)\|(?:(?P=c)\.is_control\(\)|char::is_control\((?P=c)\)))"
+_NOT_CTRL_TEST = r"\|&?(?P<c>\w+)\|!(?:(?P=c)\.is_control\(\)|char::is_control\((?P=c)\))"
+_GUARDS = [
+    # (regex on the canonical text of a boolean branch condition, value of the condition) => the string <s> has no control character
+    (re.compile(r"^b:(?P<s>.+)\.chars\(\)\.any\(%s\)$" % _CTRL_TEST), "F"),
+    (re.compile(r"^b:(?P<s>.+)\.chars\(\)\.all\(%s\)$" % _NOT_CTRL_TEST), "T"),
+    (re.compile(r"^b:(?P<s>.+)\.contains\(%s\)$" % _CTRL_TEST), "F"),
+    (re.compile(r"^b:(?P<s>.+)\.chars\(\)\.(?:find|position)\(%s\)\.is_none\(\)$" % _CTRL_TEST), "T"),
+    (re.compile(r"^b:(?P<s>.+)\.chars\(\)\.(?:find|position)\(%s\)\.is_some\(\)$" % _CTRL_TEST), "F"),
+    (re.compile(r"^b:(?P<s>.+)\.find\(%s\)\.is_none\(\)$" % _CTRL_TEST), "T"),
+    (re.compile(r"^b:(?P<s>.+)\.find\(%s\)\.is_some\(\)$" % _CTRL_TEST), "F"),
+]
+
+
+def control_free_under(val):
+    """canonical texts of the string expressions that the branch valuation `val` states to be free of control characters
+    (`!s.chars().any(char::is_control)` and its spellings): a fast path that writes such a string whole is as good as the filtered loop"""
+    out = set()
+    for key, v in (val or {}).items():
+        for rx, want in _GUARDS:
+            m = rx.match(key)
+            if m and v == want:
+                out.add(m.group("s"))
+    return out
+
+
 def string_payloads(t, found, loops=()):
-    """(sequence kind, atom, enclosing loops) for every hole/raw written inside a control string, any valuation"""
+    """(sequence kind, atom, enclosing loops, valuation) for every hole/raw written inside a control string, any valuation"""
     for val in T.valuations([t]):
         try:
             atoms = T.evaluate(t, val)
@@ -231,7 +268,7 @@ def string_payloads(t, found, loops=()):
             def visit(parts, lps):
                 for p in parts:
                     if isinstance(p, (T.Hole, T.Raw)):
-                        found.append((sq.kind, p, lps))
+                        found.append((sq.kind, p, lps, val))
                     elif isinstance(p, T.Join):
                         inner = lps + (p.star,)
                         visit([x for x in T.atoms_in(p.sep, into_loops=False)], inner)
@@ -312,7 +349,7 @@ def run(ctx):
         ctx.anchor("TEMPLATE", "TTYEncoder::encode", str(e))
         return
 
-    resolver = make_resolver(src, "TTYEncoder")
+    resolver = make_resolver(src, "TTYEncoder", file)
     enumerated = 0
     for v in variants:
         got = arm_of.get(v) or catch_all
@@ -331,6 +368,9 @@ def run(ctx):
         try:
             t = ex.arm_template(case, arm["body"], T.mkpath("$"))
             t = T.inline_calls(t, resolver, src)
+            # the bytes of a String/&str are what its Display writes
+            t = T.variant_eq_as_match(t)          # `x == Enum::V` and `matches!(x, Enum::V)` are one case variable
+            t = T.str_bytes_as_display(t, lambda text, node, v=v: field_type(prog, None, v, text) in STR_TYPES if re.match(r"^\$(\.\w+)+$", text) else False)
         except T.Unsupported as e:
             ctx.instance("TEMPLATE", {"variant": v})
             ctx.instance("COMPLETE", {"variant": v})
@@ -375,12 +415,19 @@ def run(ctx):
         except T.Unsupported as e:
             ctx.violation("STRING-PAYLOAD", v, "unsupported-construct", str(e), sites=sites)
         seen_p = set()
-        for kind, a, lps in found:
-            key = (kind, a.text())
+        # an atom is guarded when every valuation under which it is written states that the string it prints has no control character
+        guarded = {}
+        for kind, a, lps, val in found:
+            g = a.expr in control_free_under(val)
+            guarded[id(a)] = guarded.get(id(a), True) and g
+        for kind, a, lps, val in found:
+            key = (kind, a.text(), guarded[id(a)])
             if key in seen_p:
                 continue
             seen_p.add(key)
             cls, why = payload_class(prog, refdoc, v, a, lps)
+            if cls == "string" and guarded[id(a)]:
+                cls, why = "safe", "written only on the branch where %s was tested to contain no control character" % a.expr
             ctx.instance("STRING-PAYLOAD", {"variant": v, "in": kind, "hole": a.text(), "class": cls, "why": why})
             ln = ["%s:%s" % (file, a.line)] if getattr(a, "line", None) else sites
             if cls == "string":
@@ -417,6 +464,18 @@ def run(ctx):
                               "DecMode::%s = %s but xterm's mode number is %d (%s)" % (name, discr, want[name]["code"], want[name]["cite"]))
     kl = src.const("KEYBOARD_LEVEL")
     val = T.canon(kl[1]["expr"]) if kl else None
+    if kl and not re.match(r"^\d+$", val or ""):
+        # written as an expression (`1 | 2 | 4`, `0b11 << 1`, another constant): its value
+        try:
+            from ..consteval import Interp, Unsupported as _Unsup
+            try:
+                v_ = Interp(src).const(None, "KEYBOARD_LEVEL", kl[0])
+                if isinstance(v_, int) and not isinstance(v_, bool):
+                    val = str(v_)
+            except _Unsup:
+                pass
+        except ImportError:
+            pass
     ctx.instance("DECMODE", {"const": "KEYBOARD_LEVEL", "value": val})
     if kl is None or not re.match(r"^\d+$", val or ""):
         ctx.anchor("DECMODE", "KEYBOARD_LEVEL")
@@ -424,6 +483,358 @@ def run(ctx):
         ctx.violation("DECMODE", "decoder::KEYBOARD_LEVEL", "range", "KEYBOARD_LEVEL = %s exceeds the defined kitty keyboard flags (<= %d)" % (val, refdoc["consts"]["KEYBOARD_LEVEL"]["max"]))
 
     obligations(ctx)
+    sgr_params(ctx)
+
+
+_DBG_EXP = re.compile(r"^bang:debug_assert(_eq|_ne)?:")
+
+
+def debug_only_blocks(body):
+    """blocks of `body` that run only inside a debug_assert!/debug_assert_eq!/debug_assert_ne!: the macro expands to
+    `if cfg!(debug_assertions) { assert!(..) }`; in MIR the flag is a constant assigned by a statement of the macro's own expansion and
+    switched on at once, so the region is everything dominated by the taken target of that switch (the join after the macro is not:
+    it is also reached from the other edge)."""
+    flags = {}
+    for bb, blk in enumerate(body.blocks):
+        for st in blk["stmts"]:
+            if st["k"] == "assign" and not st["place"]["p"] and _DBG_EXP.match(st.get("expk") or "") and st["rv"]["k"] == "use" \
+                    and st["rv"]["a"].get("k") == "const" and st["rv"]["a"]["c"].get("ty") == "bool":
+                flags.setdefault(st["place"]["l"], []).append(bb)
+    if not flags:
+        return set()
+    cfg = body.cfg()
+    out = set()
+    for bb, blk in enumerate(body.blocks):
+        t = blk["term"]
+        if t["k"] != "switch" or t["d"].get("k") not in ("copy", "move") or t["d"]["place"]["p"] or not t.get("exp"):
+            continue
+        l = t["d"]["place"]["l"]
+        if flags.get(l) != [bb] or len(body.defs_of(l)) != 1 or t.get("vals") != ["0"]:
+            continue
+        entry = t["otherwise"]
+        if entry in t["targets"] or cfg.pred[entry] != [bb]:
+            continue
+        out |= {x for x in cfg.reach if cfg.dominates(entry, x)}
+    return out
+
+
+def debug_only_lemmas(prog, scope):
+    """(body path, site key | '*') -> lemma for every obligation that exists only in debug builds, as part of a debug_assert!: obligations
+    of the enclosing body that lie in the macro's region, and every obligation of a closure written inside the asserted expression
+    (the closure value is built in the region, so it only ever runs there).  Such code states an invariant its author believes and is absent
+    from release builds (same policy as the engine's DEBUGCHK class for the assertion itself)."""
+    from .. import oblrules, obligations as OB
+    why = "runs only inside a debug_assert!: developer-stated invariant, absent from release builds"
+    out = {}
+    dbg_closures = set()
+    for b in prog.bodies:
+        if not scope(b):
+            continue
+        region = debug_only_blocks(b)
+        if not region:
+            continue
+        for bb in region:
+            for st in b.blocks[bb]["stmts"]:
+                if st["k"] == "assign" and st["rv"]["k"] == "agg" and st["rv"].get("ak") == "closure" and st["rv"].get("def"):
+                    dbg_closures.add(st["rv"]["def"])
+        obs = [o for o in OB.collect(b, lossy=False, unsafe=True) if not o.exp]
+        keys = oblrules.site_keys(obs)
+        for o in obs:
+            if o.bb in region:
+                out[(b.path, keys[id(o)])] = ("DEBUG-ONLY", why)
+    for b in prog.bodies:
+        if any(b.path == c or b.path.startswith(c + "::") for c in dbg_closures):
+            out[(b.path, "*")] = ("DEBUG-ONLY", why)
+    return out
+
+
+# ---- SGR-PARAMS ---------------------------------------------------------------------------------------------------------------------------
+def sgr_params(ctx):
+    """Under every colour depth, what TTYEncoder::encode writes for a Face / FaceModify is either nothing or ONE control sequence `ESC [ p ; p .. m`
+    whose every parameter is a non-empty decimal number (with ':' sub-parameters): an empty parameter means 0 = reset to a terminal.  Decided by
+    giving the arm its value (source expressions evaluated by C06's evaluator; the colour arithmetic of the rasterize crate is modelled loosely -
+    any finite model will do, the shape of the output does not depend on which palette entry is picked).  Undecided (note) when not evaluable."""
+    ctx.rule("SGR-PARAMS", "Face/FaceModify under TrueColor, EightBit and Gray depth: the output is nothing or one ESC [ p;p.. m with every parameter a non-empty decimal (':' sub-parameters allowed)", floor=6)
+    try:
+        from . import c06
+        from ..consteval import Unsupported as EvUnsupported, StructV, EnumV, NONE, some
+    except ImportError as ex:
+        ctx.note("SGR-PARAMS not evaluated: %s" % ex)
+        return
+    it = c06.Ev(ctx.src)
+
+    def lin(c):
+        return ("LinColor",) + tuple(float(x) / 255.0 for x in c[1:4]) + (1.0,)
+    it.extern_fns["LinColor::from"] = lambda a: lin(a[0]) if isinstance(a[0], tuple) and a[0][:1] == ("RGBA",) else a[0]
+    it.extern_fns["LinColor::new"] = lambda a: ("LinColor",) + tuple(float(x) for x in a)
+    std_method = it.std_method
+
+    def with_colours(recv, m, a, fr=None, turbofish=""):
+        if isinstance(recv, tuple) and recv[:1] in (("LinColor",), ("RGBA",)) and len(recv) == 5:
+            ch = [float(x) / (255.0 if recv[0] == "RGBA" else 1.0) for x in recv[1:4]]
+            if m == "luma" and not a:
+                return 0.2126 * ch[0] + 0.7152 * ch[1] + 0.0722 * ch[2]
+            if m == "distance" and len(a) == 1 and isinstance(a[0], tuple) and len(a[0]) == 5:
+                o = [float(x) / (255.0 if a[0][0] == "RGBA" else 1.0) for x in a[0][1:4]]
+                return sum((x - y) ** 2 for x, y in zip(ch, o)) ** 0.5
+            if m == "into" and not a and recv[0] == "LinColor":
+                return [float(x) for x in recv[1:5]]
+        return std_method(recv, m, a, fr, turbofish)
+    it.std_method = with_colours
+    w = c06.SgrWorld(it, ctx.src)
+    if not w.ok:
+        ctx.note("SGR-PARAMS not evaluated: %s not found" % ", ".join(w.problems))
+        return
+    depths = [v["name"] for v in w.en_depth[1]["variants"]]
+    param = re.compile(rb"^[0-9]+(:[0-9]+)*$")
+    C = c06.colour()
+    flag_bits, style_bits = {}, {}
+    try:
+        for cn in c06.FLAG_NAMES:
+            v = it.const("FaceAttrs", cn)
+            if isinstance(v, StructV):
+                flag_bits[cn] = v.fields.get("bits")
+        for sname, cn in c06.UCONST.items():
+            v = it.const("FaceAttrs", cn)
+            if isinstance(v, StructV):
+                style_bits[sname] = v.fields.get("bits")
+    except EvUnsupported:
+        pass
+    mods = [("reset", {"reset": True})] + [(c, {c: some(C)}) for c in w.colour_fields] + [("underline-" + st_, {"underline": some(EnumV("UnderlineStyle", st_))}) for st_ in w.styles] \
+        + [("%s-%s" % (b_, v_), {b_: some(v_)}) for b_ in w.bool_fields for v_ in (True, False)]
+    all_mod = {}
+    for _, kw in mods:
+        for k2, v2 in kw.items():
+            all_mod.setdefault(k2, v2)
+    mods.append(("all-fields", all_mod))
+    bits_all = 0
+    for b_ in list(flag_bits.values()) + list(style_bits.values())[:1]:
+        if isinstance(b_, int):
+            bits_all |= b_
+    faces = [("default", w.face()), ("fg", w.face(fg=some(C))), ("bg", w.face(bg=some(C))), ("all", w.face(fg=some(C), bg=some(c06.colour((200, 100, 0))), bits=bits_all))]
+    faces += [("attrs-%s" % k2, w.face(bits=b_)) for k2, b_ in list(flag_bits.items()) + list(style_bits.items()) if isinstance(b_, int)]
+    for depth in depths:
+        w.caps = (lambda depth=depth: StructV("TerminalCaps", {f["name"]: (EnumV("ColorDepth", depth) if f["ty"].replace(" ", "") == "ColorDepth" else it.default_of(f["ty"].replace(" ", "")))
+                                                              for f in w.st_caps[1]["fields"]}))
+        for arm, rows in (("FaceModify", [(l, w.mod(**kw)) for l, kw in mods]), ("Face", faces)):
+            n_ok = 0
+            undecided = None
+            for label, arg in rows:
+                try:
+                    out = w.encode(arm, arg)
+                except c06.Panic as ex:
+                    ctx.violation("SGR-PARAMS", "TTYEncoder::encode/%s" % arm, "panics-%s" % depth, "%s(%s) under %s depth panics: %s" % (arm, label, depth, ex), sites=[c06.ENC])
+                    continue
+                except EvUnsupported as ex:
+                    undecided = "%s(%s): %s" % (arm, label, ex)
+                    break
+                n_ok += 1
+                if out == b"":
+                    continue
+                p_ = c06.sgr_payload(out)
+                bad = None
+                if p_ is None:
+                    bad = "is not one ESC [ .. m sequence"
+                else:
+                    empties = [i for i, x in enumerate(p_.split(b";")) if not param.match(x)]
+                    if empties:
+                        bad = "has a malformed parameter (number %d is %r; an empty parameter is 0 = reset)" % (empties[0] + 1, p_.split(b";")[empties[0]].decode("latin-1"))
+                if bad:
+                    ctx.violation("SGR-PARAMS", "TTYEncoder::encode/%s" % arm, "%s-%s" % (depth, "framing" if p_ is None else "empty-parameter"),
+                                  "%s(%s) under %s depth is written as %s, which %s" % (arm, label, depth, c06.shb(out), bad), sites=[c06.ENC])
+            ctx.instance("SGR-PARAMS", {"depth": depth, "arm": arm, "commands": n_ok, "undecided": undecided}, nontrivial=undecided is None)
+            if undecided:
+                ctx.note("SGR-PARAMS undecided for %s depth (construct outside the evaluator's models): %s" % (depth, undecided))
+
+
+# ---- NEAREST-RANGE ------------------------------------------------------------------------------------------------------------------------
+def _split_args(text):
+    """top-level comma split of `a, f(b, c), d`"""
+    out, depth, cur = [], 0, []
+    for ch in text:
+        if ch in "([{":
+            depth += 1
+        elif ch in ")]}":
+            depth -= 1
+        if ch == "," and depth == 0:
+            out.append("".join(cur).strip())
+            cur = []
+        else:
+            cur.append(ch)
+    if cur:
+        out.append("".join(cur).strip())
+    return out
+
+
+def _term_upper(term, nearest_max, table_max):
+    """upper bound of a canonical term (sa.flow.expr) built from non-negative constants, `encoder::nearest(_, T)` (< len T), reads of integer
+    const tables and Add/Mul; None when the term has anything else"""
+    term = term.strip()
+    if re.fullmatch(r"\d+", term):
+        return int(term)
+    m = re.fullmatch(r"(Add|Mul)\((.*)\)", term)
+    if m:
+        parts = _split_args(m.group(2))
+        if len(parts) != 2:
+            return None
+        a, b = _term_upper(parts[0], nearest_max, table_max), _term_upper(parts[1], nearest_max, table_max)
+        if a is None or b is None:
+            return None
+        return a + b if m.group(1) == "Add" else a * b
+    m = re.fullmatch(r"encoder::nearest\((.*)\)", term)
+    if m:
+        parts = _split_args(m.group(1))
+        return nearest_max(parts[1]) if len(parts) == 2 else None
+    m = re.fullmatch(r"([\w:]+)\[(.*)\]", term)
+    if m:
+        return table_max(m.group(1))
+    return None
+
+
+def nearest_range_lemmas(ctx, lemmas):
+    """`encoder::nearest(v, vs)` is given its value (source expression, std binary_search_by modelled) on every outcome of the search (Ok(i), Err(i))
+    and every outcome of the neighbour comparison, for a strictly increasing table of each length it is called with: the result is an index < len and no
+    index arithmetic leaves the unsigned range.  That does not depend on how nearest is written (match on the Result, unwrap_or_else(closure), early
+    returns ..).  Used where the interval engine cannot see it itself: bounds/overflow obligations inside nearest, `TABLE[nearest(_, TABLE)]` and sums
+    of such indices in its callers."""
+    from .. import oblrules, obligations as OB
+    from ..flow import expr
+    from ..mir import call_matches
+    prog = ctx.prog
+    ctx.rule("NEAREST-RANGE", "encoder::nearest(v, vs) < vs.len() without index underflow, on every search outcome and tie direction, per table length used at its call sites", floor=3)
+    try:
+        from .c06 import Ev, Panic
+        from ..consteval import Unsupported as EvUnsupported
+    except ImportError as ex:
+        ctx.note("NEAREST-RANGE not evaluated: %s" % ex)
+        return
+    nb = prog.body("encoder::nearest")
+    if nb is None:
+        ctx.anchor("NEAREST-RANGE", "encoder::nearest")
+        return
+    # ---- table lengths at the call sites
+    ENC_FILE = "src/encoder.rs"
+
+    def table_len(body, operand):
+        """number of elements of the slice passed as table, when it is a constant table"""
+        text = expr(body, operand)
+        m = re.fullmatch(r"(?:\w+::)*(\w+)", text)
+        hit = ctx.src.const(m.group(1), file=ENC_FILE) if m else None
+        if hit is not None:
+            e = hit[1]["expr"]
+            while e.get("k") in ("ref", "paren", "cast"):
+                e = e["e"]
+            if e.get("k") == "array":
+                return text, len(e["elems"])
+        if operand.get("k") in ("copy", "move") and not operand["place"]["p"]:
+            for _, _, rv in body.defs_of(operand["place"]["l"]):
+                if isinstance(rv, dict) and rv.get("k") == "cast" and "Unsize" in (rv.get("ck") or ""):
+                    mm = re.fullmatch(r"&(?:'\w+ )?\[\w+; (\d+)\]", rv.get("from") or "")
+                    if mm:
+                        return text, int(mm.group(1))
+        return text, None
+    lens = {}
+    all_known = True
+    for b in prog.bodies:
+        for bb, t in b.calls():
+            if call_matches(t, r"^encoder::nearest$") and len(t["args"]) == 2:
+                text, n = table_len(b, t["args"][1])
+                if n is None or n == 0:
+                    all_known = False
+                    ctx.note("NEAREST-RANGE: table of nearest() called in %s (%s) is not a constant table" % (b.path, text))
+                else:
+                    lens[(b.path, text)] = n
+    if not lens or not all_known:
+        ctx.instance("NEAREST-RANGE", {"call_site_tables": {"%s %s" % k: v for k, v in lens.items()}, "all_constant": all_known})
+        return
+    # ---- evaluation
+    it = Ev(ctx.src)
+    it.unsigned_sub = True
+    f = it.find_fn(None, "nearest", file=ENC_FILE)
+    if f is None or len(f[2]["sig"]["inputs"]) != 2:
+        ctx.note("NEAREST-RANGE not evaluated: fn nearest(v, vs) not found in the source dump")
+        return
+    established = True
+    for n in sorted(set(lens.values())):
+        table = [float(k) for k in range(n)]
+        probes = [-1e30, -0.5, 1e30, float(n)] + [k + d for k in range(n) for d in (0.0, 0.25, 0.5, 0.75)]
+        bad = None
+        try:
+            for v in probes:
+                r = it.call_item(f[2], None, [v, list(table)], f[0], memo=False)
+                if not (isinstance(r, int) and not isinstance(r, bool) and 0 <= r < n):
+                    bad = "nearest(%r, <%d increasing values>) = %r" % (v, n, r)
+                    break
+        except Panic as ex:
+            bad = "nearest(%r, <%d increasing values>) panics: %s" % (v, n, ex)
+        except EvUnsupported as ex:
+            ctx.note("NEAREST-RANGE not evaluated (construct outside the modelled subset): %s" % ex)
+            established = False
+            break
+        ctx.instance("NEAREST-RANGE", {"table_length": n, "probes": len(probes), "ok": bad is None})
+        if bad:
+            established = False
+            ctx.violation("NEAREST-RANGE", "encoder::nearest", "index-range", "%s: not an index of the table (callers index CUBE/GREYS with it)" % bad, sites=[nb.loc])
+    if not established:
+        return
+    why = "nearest() evaluated on every search outcome and tie direction for table lengths %s: result < len, no index underflow (NEAREST-RANGE)" % sorted(set(lens.values()))
+    # (a) inside nearest and its closures (the NaN unwrap is FINITE-COLOR's, not this lemma's)
+    for b in prog.bodies:
+        if b.path == "encoder::nearest" or b.path.startswith("encoder::nearest::"):
+            for kind in ("OVF", "BOUNDS", "BOUNDSCALL", "RANGEIDX"):
+                lemmas.setdefault((b.path, kind), ("NEAREST-RANGE", why))
+    # (b) in the callers: TABLE[nearest(_, TABLE')] with len TABLE' <= len TABLE; sums/products of such indices and constants
+    max_by_text = {}
+    for (path, text), n in lens.items():
+        max_by_text[text] = max(max_by_text.get(text, 0), n - 1)
+
+    def nearest_max(table_text):
+        return max_by_text.get(table_text.strip())
+
+    def table_max(name):
+        hit = ctx.src.const(name.split("::")[-1], file=ENC_FILE)
+        if hit is None:
+            return None
+        e = hit[1]["expr"]
+        while e.get("k") in ("ref", "paren", "cast"):
+            e = e["e"]
+        if e.get("k") != "array":
+            return None
+        vals = []
+        for x in e["elems"]:
+            if x.get("k") == "lit" and x.get("t") in ("int", "byte"):
+                vals.append(int(x["v"]))
+            else:
+                return None
+        return max(vals) if vals else None
+    TY_MAX = {"u8": 255, "u16": 65535, "u32": (1 << 32) - 1, "u64": (1 << 64) - 1, "usize": (1 << 64) - 1}
+    for path in sorted({p_ for (p_, _) in lens}):
+        b = prog.body(path)
+        obs = [o for o in OB.collect(b, lossy=False, unsafe=True) if not o.exp]
+        keys = oblrules.site_keys(obs)
+        for o in obs:
+            msg = (o.term or {}).get("msg") or {}
+            if o.kind == "BOUNDS":
+                idx, ln = expr(b, msg["index"]), expr(b, msg["len"])
+                m = re.fullmatch(r"encoder::nearest\((.*)\)", idx)
+                parts = _split_args(m.group(1)) if m else []
+                if len(parts) == 2 and nearest_max(parts[1]) is not None:
+                    n_tab = nearest_max(parts[1]) + 1
+                    if ln == "PtrMetadata(%s)" % parts[1] or (re.fullmatch(r"\d+", ln) and int(ln) >= n_tab):
+                        lemmas.setdefault((path, keys[id(o)]), ("NEAREST-RANGE", why))
+            elif o.kind == "OVF" and o.sub in ("Add", "Mul") and msg.get("a") and msg.get("b"):
+                ua, ub = _term_upper(expr(b, msg["a"]), nearest_max, table_max), _term_upper(expr(b, msg["b"]), nearest_max, table_max)
+                tys = []
+                for opnd in (msg["a"], msg["b"]):
+                    if opnd.get("k") in ("copy", "move"):
+                        tys.append(b.local_ty(opnd["place"]["l"]) if not opnd["place"]["p"] else None)
+                    elif opnd.get("k") == "const":
+                        tys.append(opnd["c"].get("ty"))
+                ty = next((t_ for t_ in tys if t_ in TY_MAX), None)
+                if ua is not None and ub is not None and ty is not None:
+                    total = ua + ub if o.sub == "Add" else ua * ub
+                    if total <= TY_MAX[ty]:
+                        lemmas.setdefault((path, keys[id(o)]), ("NEAREST-RANGE", "%s; operands at most %d and %d (%s)" % (why, ua, ub, ty)))
 
 
 def obligations(ctx):
@@ -442,6 +853,7 @@ def obligations(ctx):
                            "Chunks::iter walks offsets in order starting from 0 — so buffer[start..end] is in range", floor=5)
     ALLOWED = {"offsets": [r"^std::vec::Vec::<T, A>::push$", r"^std::vec::Vec::<T, A>::clear$", r"^std::vec::Vec::<T, A>::(reserve|reserve_exact|try_reserve|shrink_to_fit)$"],
                "buffer": [r"Extend<&'a T>>::extend$|as std::iter::Extend<.*>>::extend$", r"^std::vec::Vec::<T, A>::(extend_from_slice|push|reserve|reserve_exact|try_reserve|shrink_to_fit)$", r"(as std::io::Write>|impl std::io::Write for std::vec::Vec<u8, A>>)::write(_all)?$", r"^std::vec::Vec::<T, A>::clear$"]}
+    NEUTRAL = r"^std::vec::Vec::<T, A>::(reserve|reserve_exact|try_reserve|try_reserve_exact|shrink_to_fit|shrink_to)$"
     ok_inv = True
     n_mut = 0
     clears = {}
@@ -460,17 +872,37 @@ def obligations(ctx):
                 m = re.search(r"\.(buffer|offsets)$", rp)
                 if not m or "Chunks" not in b.local_ty(rv["place"]["l"]):
                     continue
+                pj = rv["place"]["p"]
+                if not (pj and pj[-1].get("k") == "field" and pj[-1].get("name") == m.group(1)):
+                    continue          # a reborrow `&mut *r` of a reference taken earlier: followed from that reference below
                 n_mut += 1
                 fld = m.group(1)
                 l = st["place"]["l"]
-                users = [(ub, t) for ub, t in b.calls() if any(a.get("k") in ("copy", "move") and a["place"]["l"] == l for a in t["args"])]
-                good = own and len(users) == 1 and any(call_matches(users[0][1], p) for p in ALLOWED[fld])
-                what = callee_name(users[0][1]) if users else None
-                if good and call_matches(users[0][1], r"Vec::<T, A>::push$"):
-                    good = expr(b, users[0][1]["args"][1]) in ("Vec::len(arg1.buffer)", "len(arg1.buffer)")
-                    what = "push(%s)" % expr(b, users[0][1]["args"][1])
-                if good and call_matches(users[0][1], r"Vec::<T, A>::clear$"):
-                    clears.setdefault(b.path, set()).add(fld)
+                # every call that receives this reference, directly or through a reborrow / move into another local (`let buf = &mut self.buffer; buf.extend(..)`)
+                refs_, work_, users, escapes = {l}, [l], [], bool(st["place"]["p"])
+                while work_:
+                    x = work_.pop()
+                    users += [(ub, t) for ub, t in b.calls() if any(a.get("k") in ("copy", "move") and a["place"]["l"] == x and not a["place"]["p"] for a in t["args"])]
+                    for _, _, st2 in b.assigns():
+                        rv2 = st2["rv"]
+                        via = (rv2["k"] == "ref" and rv2["place"]["l"] == x and [e_.get("k") for e_ in rv2["place"]["p"]] == ["deref"]) or \
+                              (rv2["k"] == "use" and rv2["a"].get("k") in ("copy", "move") and rv2["a"]["place"]["l"] == x and not rv2["a"]["place"]["p"])
+                        if via:
+                            if st2["place"]["p"]:
+                                escapes = True          # stored into a field / through a pointer
+                            elif st2["place"]["l"] not in refs_:
+                                refs_.add(st2["place"]["l"])
+                                work_.append(st2["place"]["l"])
+                # capacity-only calls leave length and content alone: harmless wherever they are made; everything else only inside Chunks' own methods
+                neutral = bool(users) and not escapes and all(call_matches(t, NEUTRAL) for _, t in users)
+                good = neutral or (own and bool(users) and not escapes and all(any(call_matches(t, p) for p in ALLOWED[fld]) for _, t in users))
+                what = ", ".join(sorted({callee_name(t) or "?" for _, t in users})) if users else None
+                for _, t in users:
+                    if good and call_matches(t, r"Vec::<T, A>::push$"):
+                        good = expr(b, t["args"][1]) in ("Vec::len(arg1.buffer)", "len(arg1.buffer)")
+                        what = "push(%s)" % expr(b, t["args"][1])
+                    if good and call_matches(t, r"Vec::<T, A>::clear$"):
+                        clears.setdefault(b.path, set()).add(fld)
                 ctx.instance("CHUNKS-INV", {"fn": b.path, "field": fld, "mutated_by": what, "allowed": bool(good)})
                 if not good:
                     ok_inv = False
@@ -486,38 +918,83 @@ def obligations(ctx):
         ctx.anchor("CHUNKS-INV", "Chunks::iter")
         ok_inv = False
     else:
-        # closure environment initialised with (0, self, 0); start := offsets[index]; index += 1
+        # in-order walk, decided on canonical terms (not on statement order, names or capture positions): the one range index is
+        #   buffer[S .. offsets[I]]   with S, I captured state;   every write to S stores that same offsets[I] (the one read of offsets);
+        #   every write to I is I + <positive constant>;   nothing else of the state is written;   S and I start at 0
         init = [expr(it, {"k": "copy", "place": st["place"]}) for bb, si, st in it.assigns() if st["rv"]["k"] == "agg" and st["rv"].get("ak") == "closure"]
-        ok_init = len(init) == 1 and len(re.findall(r"\b0\b", init[0])) >= 2
+        init_fields = [[expr(it, f) for f in st["rv"]["fields"]] for bb, si, st in it.assigns() if st["rv"]["k"] == "agg" and st["rv"].get("ak") == "closure"]
         writes = sorted("%s := %s" % (resolve_place(itc, st["place"]), expr(itc, st["rv"]["a"]) if st["rv"]["k"] == "use" else st["rv"]["k"])
                         for bb, si, st in itc.assigns() if resolve_place(itc, st["place"]).startswith("(*_1)."))
         idx_calls = [t for bb, t in itc.calls() if call_matches(t, r"ops::Index<I>>::index$")]
-        ok_w = len(writes) == 2 and len(idx_calls) == 2
-        ctx.instance("CHUNKS-INV", {"iter_env_init": init, "closure_state_writes": writes, "ok": ok_init and ok_w})
-        if not (ok_init and ok_w):
+        off_reads = [t for t in idx_calls if (arg_place_of(itc, t, 0) or "").endswith(".offsets")]
+        rng_reads = [t for t in idx_calls if (arg_place_of(itc, t, 0) or "").endswith(".buffer")]
+        ok_w = False
+        why_not = "not one read of offsets and one range read of buffer"
+        if len(off_reads) == 1 and len(rng_reads) == 1 and len(idx_calls) == 2 and len(init_fields) == 1:
+            end_term = "Index::index(%s)" % ", ".join(expr(itc, a) for a in off_reads[0]["args"])
+            m_i = re.fullmatch(r"arg1\.(\d+)", expr(itc, off_reads[0]["args"][1]))
+            m_r = re.fullmatch(r"Range\{start: arg1\.(\d+), end: (.*)\}", expr(itc, rng_reads[0]["args"][1]))
+            if m_i and m_r and m_r.group(2) == end_term and m_i.group(1) != m_r.group(1):
+                I, S = m_i.group(1), m_r.group(1)
+                good_w = True
+                for wtxt in writes:
+                    lhs, rhs = wtxt.split(" := ", 1)
+                    if lhs == "(*_1).%s" % S:
+                        good_w &= rhs == end_term
+                    elif lhs == "(*_1).%s" % I:
+                        mm = re.fullmatch(r"Add\(arg1\.%s, (\d+)\)" % I, rhs)
+                        good_w &= bool(mm) and int(mm.group(1)) > 0
+                    else:
+                        good_w = False
+                fi = init_fields[0]
+                starts_zero = int(I) < len(fi) and int(S) < len(fi) and fi[int(I)] == "0" and fi[int(S)] == "0"
+                advances = any(w_.startswith("(*_1).%s := " % I) for w_ in writes) and any(w_.startswith("(*_1).%s := " % S) for w_ in writes)
+                ok_w = good_w and starts_zero and advances
+                why_not = "" if ok_w else "state writes %s / initial state %s" % (writes, fi)
+            else:
+                why_not = "range read is %s, offsets read is %s" % (expr(itc, rng_reads[0]["args"][1]), end_term)
+        if not ok_w:
+            # the same walk written with an adaptor: `self.offsets.iter().scan(0, |start, &end| { .. buffer[*start..end] ..; *start = end; .. })`
+            #   the items are the offsets in order, the state starts at 0, the one range read is buffer[state .. item], the state is only ever set to the item
+            scans = [t for bb, t in it.calls() if call_matches(t, r"^std::iter::Iterator::scan$|as std::iter::Iterator>::scan$")]
+            if len(scans) == 1 and len(scans[0]["args"]) == 3:
+                a0, a1, a2 = [expr(it, a) for a in scans[0]["args"]]
+                over_offsets = bool(re.fullmatch(r"(?:slice::iter|Vec::iter|iter|IntoIterator::into_iter)\((?:Deref::deref\()?arg1\.offsets\)?\)", a0))
+                st_writes = sorted("%s := %s" % (resolve_place(itc, st["place"]), expr(itc, st["rv"]["a"]) if st["rv"]["k"] == "use" else st["rv"]["k"])
+                                   for bb, si, st in itc.assigns() if resolve_place(itc, st["place"]).startswith("(*_"))
+                rng_ok = len(idx_calls) == 1 and len(rng_reads) == 1 and expr(itc, rng_reads[0]["args"][1]) == "Range{start: arg2, end: arg3}"
+                ok_w = over_offsets and a1 == "0" and a2.startswith("closure:") and rng_ok and bool(st_writes) and all(w_ == "(*_2) := arg3" for w_ in st_writes)
+                writes = st_writes
+                init = ["scan(%s, %s, ..)" % (a0, a1)]
+                why_not = "" if ok_w else "scan over %s from %s; range read %s; state writes %s" % (a0, a1, [expr(itc, t["args"][1]) for t in rng_reads], st_writes)
+        ctx.instance("CHUNKS-INV", {"iter_env_init": init, "closure_state_writes": writes, "ok": ok_w})
+        if not ok_w:
             ok_inv = False
-            ctx.violation("CHUNKS-INV", itc.path, "iter-shape", "Chunks::iter is not the in-order walk (index, start from 0; start := offsets[index]; index += 1): %s / %s" % (init, writes), sites=[itc.loc])
+            ctx.violation("CHUNKS-INV", itc.path, "iter-shape", "Chunks::iter is not the in-order walk (index, start from 0; chunk = buffer[start..offsets[index]]; start := that offset; index += 1): %s" % why_not, sites=[itc.loc])
     if ok_inv:
         lemmas[("encoder::Chunks::iter::{closure#0}", "RANGEIDX")] = ("CHUNKS-INV", "offsets is non-decreasing and every element <= buffer.len() (CHUNKS-INV), start is the previous offset")
     # ---- SCRATCH-RESET: the SGR parameter buffer kept in the encoder is emptied before each command uses it -----------------------
     ctx.rule("SCRATCH-RESET", "TTYEncoder::encode: every use of the persistent scratch buffer self.chunks (push/mark/write/drain, or handing it to a helper) is dominated by "
                               "self.chunks.clear() in the same call — parameters left behind by a command that failed with an I/O error cannot leak into the next one", floor=4)
-    enc = prog.body(ENC)
+    # helpers of encode that were extracted from it (private, called from encode only) are looked through: the body with them expanded in place
+    enc = prog.inlined(ENC) if prog.body(ENC) is not None else None
     if enc is None:
         ctx.anchor("SCRATCH-RESET", "TTYEncoder::encode")
     else:
         ecfg = enc.cfg()
         uses, clears = [], []
         for bb, t in enc.calls():
+            if bb not in ecfg.reach:
+                continue
             for i, a in enumerate(t["args"]):
                 if a.get("k") not in ("copy", "move"):
                     continue
-                ap = arg_place_of(enc, t, i)
-                if ap == "(*_1).chunks":
-                    if call_matches(t, r"^encoder::Chunks::clear$"):
+                ap = arg_place_of(enc, t, i) or ""
+                if ap == "(*_1).chunks" or ap.startswith("(*_1).chunks."):
+                    if ap == "(*_1).chunks" and call_matches(t, r"^encoder::Chunks::clear$"):
                         clears.append(bb)
-                    elif call_matches(t, r"^encoder::Chunks::is_empty$"):
-                        pass
+                    elif call_matches(t, r"^encoder::Chunks::is_empty$|^std::vec::Vec::<T, A>::(is_empty|len|capacity)$"):
+                        pass          # reads that emit nothing
                     else:
                         uses.append((bb, t))
         for bb, t in uses:
@@ -532,11 +1009,25 @@ def obligations(ctx):
     ctx.rule("FINITE-COLOR", "nearest() is only called by color_sgr_encode, which is only instantiated with rasterize::RGBA (8-bit channels: finite linear components)", floor=2)
     ok_fin = True
     n_calls = 0
+    cgr = prog.callgraph()
+
+    def only_from_color_sgr_encode(path, depth=0):
+        """`path` is color_sgr_encode, or a private non-generic helper of src/encoder.rs all of whose callers are (a helper extracted from
+        color_sgr_encode receives the same finite values)"""
+        b_ = prog.body(path)
+        root = (b_.closure_root or b_.path) if b_ is not None else path
+        if root == "encoder::color_sgr_encode":
+            return True
+        rb = prog.body(root)
+        if depth > 3 or rb is None or rb.kind not in ("Fn", "AssocFn") or rb.impl_trait or not rb.file.endswith("encoder.rs") or (rb.j.get("vis") or "").startswith("Public"):
+            return False
+        cs = [c for c in cgr.callers(root) if (prog.body(c).closure_root if prog.body(c) is not None else None) != root and c != root]
+        return bool(cs) and all(only_from_color_sgr_encode(c, depth + 1) for c in cs)
     for b in prog.bodies:
         for bb, t in b.calls():
             if call_matches(t, r"^encoder::nearest$"):
                 n_calls += 1
-                good = b.path == "encoder::color_sgr_encode"
+                good = only_from_color_sgr_encode(b.path)
                 ctx.instance("FINITE-COLOR", {"nearest_called_from": b.path, "ok": good})
                 ok_fin &= good
             if call_matches(t, r"^encoder::color_sgr_encode$"):
@@ -549,6 +1040,10 @@ def obligations(ctx):
         ctx.trust("FINITE-COLOR", "rasterize's LinColor::from(RGBA) yields finite components (sRGB transfer function on 8-bit channels)")
     elif n_calls:
         ctx.violation("FINITE-COLOR", "encoder::nearest", "callers", "nearest()/color_sgr_encode is used with a colour type whose components may be NaN: partial_cmp(..).unwrap() can panic", sites=[])
+    nearest_range_lemmas(ctx, lemmas)
+    in_scope = lambda b: b.file.endswith(("encoder.rs", "terminal.rs", "face.rs"))
+    for k_, v_ in debug_only_lemmas(prog, in_scope).items():
+        lemmas.setdefault(k_, v_)
     oblrules.run(ctx, "TOTAL", [ENC], lossy=False, lemmas=lemmas, floor_bodies=4,
-                 scope=lambda b: b.file.endswith(("encoder.rs", "terminal.rs", "face.rs")),
+                 scope=in_scope,
                  desc="encoding never panics: no reachable overflow/negation/bounds/unwrap failure from TTYEncoder::encode")
